@@ -144,7 +144,13 @@ pub fn gen_history(pid: &str, rng: &mut Rng, uni: &Universe, persistent: bool, s
                     stats.inc("matches");
                 }
                 10..=17 => {
-                    let k = if rng.chance(1, 3) { b"a:b/\xc3\xa9:".to_vec() } else { gen_key(rng) };
+                    // colons and non-ASCII inside the text; key bytes that begin or end in white space (the text
+                    // after the second colon IS the key: nothing may be trimmed)
+                    let k = match rng.below(4) {
+                        0 => b"a:b/\xc3\xa9:".to_vec(),
+                        1 => { stats.inc("filter_whitespace_edged"); rng.pick(&[&b"notes "[..], b" ", b"\t", b"a\n", b" a", b"x\xe3\x80\x80", b"tab\t", b"\r\n", b" a ", b"\x0b", b"a\x0c"]).to_vec() }
+                        _ => gen_key(rng),
+                    };
                     let f = if rng.chance(1, 2) { iroh_docs::store::FilterKind::Prefix(k.into()) } else { iroh_docs::store::FilterKind::Exact(k.into()) };
                     h.push(SOp::FilterText { f });
                     stats.inc("filter_text");
@@ -290,8 +296,8 @@ pub fn run(pid: &str, seed: u64, n: usize, out: &Path, _thorough: bool) -> anyho
     let mut stats = Stats::default();
     // C15 is also observed at the download flag of remote insert events: its case file mixes store
     // histories with histories through the store handle (Check/C15.v)
-    let mixed = pid == "C15";
-    let mut cw = CaseWriter::new(out, pid, if mixed { "Check.C15" } else { "Check.StoreProps" }, 50)?;
+    let mixed = pid == "C15" || pid == "C07";
+    let mut cw = CaseWriter::new(out, pid, match pid { "C15" => "Check.C15", "C07" => "Check.C07", _ => "Check.StoreProps" }, 50)?;
     let mut distinct = std::collections::HashSet::new();
     for i in 0..n {
         let uni = Universe::new(seed.wrapping_add((i % 4) as u64), 2 + (i % 2), 1 + rng.below(3) as usize);
@@ -331,7 +337,7 @@ pub fn run(pid: &str, seed: u64, n: usize, out: &Path, _thorough: bool) -> anyho
         } else {
             format!("(mkCase {} {} {})", code, clist(&uni.all_ids(), |i| n256(i)), ch)
         };
-        let coq = if mixed { format!("(St15 (StoreProps.{})", &coq[1..]) } else { coq };
+        let coq = if mixed { format!("({} (StoreProps.{})", if pid == "C15" { "St15" } else { "St07" }, &coq[1..]) } else { coq };
         let json = format!("{{\"store\":\"{}\",\"history\":{}}}", if persistent { "file" } else { "memory" }, jh);
         let interesting = hist.iter().any(|(o, r)| match (pid, o, r) {
             ("C07", SOp::Import { .. }, SRes::Import("ImpUpgraded")) => true,
@@ -347,7 +353,14 @@ pub fn run(pid: &str, seed: u64, n: usize, out: &Path, _thorough: bool) -> anyho
         }
         cw.push(coq, json)?;
     }
-    if mixed {
+    if pid == "C07" {
+        // a tenth as many scenarios (at least 20) through the client API of a real node (src/api): the layer
+        // applications use to import capabilities and write
+        let before = cw.total;
+        crate::c07api::run_into(seed ^ 0x07, (n / 10).max(20), &mut cw, &mut stats, "Api07")?;
+        stats.add("api_histories", (cw.total - before) as u64);
+    }
+    if pid == "C15" {
         // a quarter as many histories through the store handle, generated as for C12 (policies change
         // while documents stay open, entries arrive right afterwards by either path)
         let before = cw.total;
@@ -380,5 +393,13 @@ pub fn gen_filter_text(rng: &mut Rng) -> Vec<u8> {
     t.extend_from_slice(enc);
     if !rng.chance(1, 12) { t.push(b':'); }
     t.extend_from_slice(&val);
+    // white space around the whole string or at the end of the value (hex digits must not be preceded or
+    // followed by anything; a utf8 value keeps it)
+    match rng.below(10) {
+        0 => t.push(b' '),
+        1 => { t.insert(0, b' '); }
+        2 => t.extend_from_slice(b"\n"),
+        _ => {}
+    }
     t
 }
